@@ -14,7 +14,8 @@ and two C strings per header, the trusted-proxies configuration that is never re
 * `Call` is one step of a C caller; `step` executes it on `State` (= heap + the caller's slots) following the
   entry point's code, and flags a violation of the CALLER PROTOCOL (a slot of the wrong kind, or used after it
   was released / consumed) in `protocolOk`.  What the library computes *inside* an object (JSON, filtering) is
-  not modelled: lengths of opaque results are arguments of the call (the theorems hold for all of them).
+  not modelled: the results the library computes (lengths of strings, produced bytes, NULL or not) are
+  arguments of the call — the theorems hold for all of them, the correspondence supplies the observed ones.
 -/
 namespace Rio.Ffi
 
@@ -206,13 +207,14 @@ inductive Call where
   | objUse (k : Kind) (s : Nat)                -- `get_status_code`, `should_log_request`, `set_remote_addr`, … (borrow)
   | objSer (k : Kind) (s : Nat) (len : Nat)    -- `…_json_serialize`: a C string of `len` bytes (NULL for a NULL object)
   | objDrop (k : Kind) (s : Nat)               -- `redirectionio_action_drop`, `…_request_drop`, `…_body_filter_drop`
-  | strNew (len : Nat)                         -- `api_get_rule_api_version`, `api_create_log_in_json`
+  | strNew (len : Nat)                         -- `api_get_rule_api_version`
+  | logJson (r : Nat) (a : Option Nat) (len : Nat)  -- `api_create_log_in_json(request r, …, action a or NULL, …)`
   | strFree (s : Nat)                          -- the caller frees a returned C string
   | headers (a : Nat) (out : List (Nat × Nat)) -- `action_header_filter_filter(action a, caller's list, …)`
   | hlistFree (s : Nat)                        -- the caller frees a returned header list
   | filterNew (a : Nat) (ok : Bool)            -- `action_body_filter_create`
-  | filterFeed (f b : Nat) (outLen : Nat)      -- `action_body_filter_filter(filter, buf)`: consumes buf (filter ≠ NULL)
-  | filterClose (f : Nat) (outLen : Nat)       -- `action_body_filter_close`: consumes the filter
+  | filterFeed (f b : Nat) (out : List Nat)    -- `action_body_filter_filter(filter, buf)`: consumes buf (filter ≠ NULL); `out` = what the filter produced
+  | filterClose (f : Nat) (out : List Nat)     -- `action_body_filter_close`: consumes the filter
   | tpNew                                      -- `trusted_proxies_create`: never released
   | tpUse (s : Nat)                            -- `trusted_proxies_add_proxy` / passing it to `set_remote_addr`
 deriving Repr
@@ -229,9 +231,6 @@ def State.get (st : State) (s : Nat) : Option Handle :=
   match st.slots[s]? with
   | some sl => if sl.released then none else some sl.h
   | none => none
-
-/-- an opaque byte string of `n` bytes the library produced (content not modelled) -/
-def opaqueBytes (n : Nat) : List Nat := List.replicate n 0
 
 /-- One call, following the code of the entry point. -/
 def step (st : State) : Call → State
@@ -295,6 +294,27 @@ def step (st : State) : Call → State
   | .strNew len =>
     let (h, c) := cstrNew st.heap len
     { st with heap := h }.push (.cstr (some c) len)
+  | .logJson r a len =>
+    match st.get r with
+    | some (.obj .request rid) =>
+      match rid with
+      | none => st.push (.cstr none 0)                       -- if _request.is_null() { return null() }
+      | some rid =>
+        let h := st.heap.use rid
+        match a with
+        | none =>
+          let (h, c) := cstrNew h len
+          { st with heap := h }.push (.cstr (some c) len)
+        | some a =>
+          match st.get a with
+          | some (.obj .action aid) =>
+            let h := match aid with
+              | none => h
+              | some aid => h.use aid
+            let (h, c) := cstrNew h len
+            { st with heap := h }.push (.cstr (some c) len)
+          | _ => st.violate
+    | _ => st.violate
   | .strFree s =>
     match st.get s with
     | some (.cstr id len) =>
@@ -306,7 +326,7 @@ def step (st : State) : Call → State
     match st.get a with
     | some (.obj .action id) =>
       match id with
-      | none => st                                           -- returns the caller's own list: nothing new to own
+      | none => st.push (.hlist [])                          -- returns the caller's own list: the slot owns nothing
       | some id =>
         let (h, nodes) := headerList sz (st.heap.use id) out []
         { st with heap := h }.push (.hlist nodes)
@@ -327,7 +347,7 @@ def step (st : State) : Call → State
           { st with heap := h }.push (.obj .filter (some f))
         else { st with heap := h }.push (.obj .filter none)
     | _ => st.violate
-  | .filterFeed f b outLen =>
+  | .filterFeed f b out =>
     match st.get f, st.get b with
     | some (.obj .filter fid), some (.buffer buf) =>
       match fid with
@@ -337,20 +357,20 @@ def step (st : State) : Call → State
       | some fid =>
         -- let bytes = buffer.into_vec(); let new_body = filter.filter(bytes, None); Buffer::from_vec(new_body)
         let h := vecDrop (st.heap.use fid) (intoVec buf)
-        let (h, v) := vecNew h (opaqueBytes outLen) outLen
-        let (h, out) := fromVec h v
-        (({ st with heap := h }).release b).push (.buffer out)
+        let (h, v) := vecNew h out out.length        -- capacity of the filter's Vec is not modelled (see fromVec)
+        let (h, ob) := fromVec h v
+        (({ st with heap := h }).release b).push (.buffer ob)
     | _, _ => st.violate
-  | .filterClose f outLen =>
+  | .filterClose f out =>
     match st.get f with
     | some (.obj .filter fid) =>
       match fid with
       | none => (st.release f).push (.buffer ⟨none, []⟩)       -- Buffer::default()
       | some fid =>
         let h := boxDrop sz (st.heap.use fid) .filter fid      -- Box::from_raw; end(); drop(filter)
-        let (h, v) := vecNew h (opaqueBytes outLen) outLen
-        let (h, out) := fromVec h v
-        (({ st with heap := h }).release f).push (.buffer out)
+        let (h, v) := vecNew h out out.length
+        let (h, ob) := fromVec h v
+        (({ st with heap := h }).release f).push (.buffer ob)
     | _ => st.violate
   | .tpNew =>
     let (h, inner) := boxNew sz st.heap .tconfig
